@@ -30,18 +30,27 @@ META = {
                   'Commands: compatibleCmd_reduces / compatibleCmd_complete, command_rebuild_equiv (export_datatype / '
                   "DATATYPES['command'] / copy of a CommandType).  Users of compatible(): "
                   'proxy_own_description_silent, proxy_own_command_silent (the proxy check logs nothing against the own description), '
-                  'writable_same_datatype_ok.  Table facts of DATATYPES / exported properties by decide.  Models '
+                  'writable_same_datatype_ok; proxy_direction (which way round the proxy asks compatible() follows from the readonly flag of its '
+                  'OWN parameter: writable and no incompatible-warning = proxy -> remote passed, no datatype warning = remote -> proxy passed), '
+                  'proxy_flow_sound_partial (then the values really fit).  Histories on ONE object (description asked for, main unit / properties of '
+                  'any member changed - also through the enclosing arrays -, asked again): history_description_current (the description given at the '
+                  'end is the one of the object as it is then), history_rebuild_equiv / history_copy_equiv, set_main_unit_same_behaviour.  '
+                  'Table facts of DATATYPES / exported properties by decide.  Models '
                   'tied to frappy/datatypes.py, frappy/proxy.py (_check_descriptive_data) and frappy/modules.py (Writable.__init__) by a '
                   'correspondence run on the real classes; Lean monitors judge every observed rebuild, '
                   'copy (sharing partition, mutation of every object of the copy) and verdict (datatypes and commands), with a witness '
-                  'search through the real validate for passing verdicts.',
+                  'search through the real validate for passing verdicts; the proxy check is judged on the direction in which values flow '
+                  '(witnesses of both value sets through the real validate of the other side); aged objects are judged at the end of their history '
+                  '(rebuild / copy as above, and the datainfo against that of a twin built from the state read off the object).',
     'level_note': 'Partial: compatible_sound excludes a struct of the first type with all members optional against a mandatory member '
                   '(recorded finding, counterexample compatible_sound_fails proved) and relative_resolution >= 1 (recorded finding, '
                   'counterexample compatible_sound_fails_resolution proved); compatibleC_sound_partial additionally needs that the second '
                   'type holds no LimitsType (plain tuple against LimitsType: recorded finding, compatibleC_sound_fails_limits proved; '
                   'LimitsType against LimitsType: needs monotonicity of validate, not proved, judged by the monitors only); '
                   'rebuildC_equiv_partial excludes LimitsType (its order test is not in the description: recorded finding, '
-                  'rebuildC_equiv_fails_limits proved). '
+                  'rebuildC_equiv_fails_limits proved); proxy_flow_sound_partial has the side conditions of compatibleC_sound_partial; '
+                  'history_rebuild_equiv assumes that the object at the end of the history is well formed (that set_properties / set_main_unit keep '
+                  'DInfo.WF is not proved). '
                   'Trusted: Lean kernel + axioms propext/Classical.choice/Quot.sound; LawfulFloatOps and CompatLaws for binary64 (both '
                   'proved for the exact carrier Rat); scaled limits within the grid-law region (|index| <= 2^31); compatible_* : scaled limits grid aligned.',
     'trusted': [
@@ -65,6 +74,9 @@ META = {
         'Python method resolution for the derived classes (none overrides compatible / export_datatype / __call__ / import_value; '
         'LimitsType overrides validate and copy, TextType copy): compatibleC / cvalidate / copyC transcribe it, tied by correspondence',
         'frappy.params.Parameter copies the declared datatype before Writable.__init__ compares value and target (the model applies copyC)',
+        'datatype objects are changed through set_main_unit / set_properties on the object or on a member object (History.lean: setMainUnit, '
+        'setProp with the delegation of ArrayOf.setProperty, checkProps); not modelled: scale of a ScaledInteger set later, set_name, histories on '
+        'derived classes and on CommandType; the property datatypes are modelled for values of the right kind only',
         'the proxy check is run on stand-ins for the proxy module and the SecopClient (parameters / commands dicts, a log collecting '
         'the warnings); the remote datatypes are rebuilt from their description by the real get_datatype',
     ],
@@ -543,6 +555,228 @@ def eval_copy(case):
     for p, o in zip(case['probes'], before_out):
         impl['mprobes'].append({'o': o, 'd': run_probe(dt, p)})
     return impl
+
+
+# ---------------------------------------------------------------------------------------------
+# histories on ONE datatype object: export, change (main unit, properties of any member, also through the enclosing
+# arrays), export again ... then rebuild / copy; the description must be that of the datatype as it is NOW
+# ---------------------------------------------------------------------------------------------
+def node_at(dt, path):
+    """the member object at `path` (array: 0; tuple, struct: position)"""
+    from frappy.datatypes import ArrayOf, StructOf, TupleOf
+    for i in path:
+        if isinstance(dt, ArrayOf):
+            if i != 0:
+                raise IndexError(i)
+            dt = dt.members
+        elif isinstance(dt, TupleOf):
+            dt = dt.members[i]
+        elif isinstance(dt, StructOf):
+            dt = list(dt.members.values())[i]
+        else:
+            raise IndexError(i)
+    return dt
+
+
+def tree_paths(tree, path=()):
+    """(path, subtree) of every node of an annotated tree, with positions as path elements"""
+    yield path, tree
+    t = tree['t']
+    if t == 'array':
+        yield from tree_paths(tree['elem'], path + (0,))
+    elif t == 'tuple':
+        for i, e in enumerate(tree['elems']):
+            yield from tree_paths(e, path + (i,))
+    elif t == 'struct':
+        for i, (_, m) in enumerate(tree['members']):
+            yield from tree_paths(m, path + (i,))
+
+
+def _propval(v):
+    """a property value of a step -> the Python value"""
+    return bits2f(v['f']) if isinstance(v, dict) else v
+
+
+def apply_step(dt, s):
+    """one step on the real object: outcome as _outcome does"""
+    node = node_at(dt, s['path'])
+    if s['op'] == 'export':
+        return _outcome(node.export_datatype)
+    if s['op'] == 'unit':
+        return _outcome(lambda: node.set_main_unit(s['unit']))
+    return _outcome(lambda: node.set_properties(**{k: _propval(v) for k, v in s['props']}))
+
+
+def draw_change(rng, tree):
+    """a change of the properties of one node of the (current) tree: [(key, value)], mostly one that checkProperties accepts"""
+    cands = [(p, n) for p, n in tree_paths(tree) if n['t'] in ('double', 'int', 'scaled', 'string', 'blob', 'array')]
+    if not cands:
+        return None
+    path, n = rng.choice(cands)
+    t = n['t']
+    bad = rng.random() < 0.04
+    props = []
+
+    def pv(x):
+        return fj(x) if isinstance(x, float) else x
+    if t in ('double', 'scaled'):
+        r = rng.random()
+        lo, hi = _f(n['min']), _f(n['max'])
+        if r < 0.45:
+            if t == 'double':
+                pts = sorted(rng.sample([-1e9, -100.0, -2.5, 0.0, 1.0, 5.0, 10.0, 1e3, 7.25e6], 2))
+            else:
+                sc = _f(n['scale'])
+                k1, k2 = sorted((draw_index(rng, sc) or 0, draw_index(rng, sc) or 0))
+                pts = [k1 * sc, k2 * sc]
+            if bad and pts[0] != pts[1]:
+                pts = pts[::-1]
+            if t == 'double' and rng.random() < 0.3:
+                # a float property takes integers as well (FloatRange.validate: value += 0.0)
+                pts = [int(x) if float(x).is_integer() and abs(x) < 2 ** 53 else x for x in pts]
+            which = rng.random()
+            if rng.random() < 0.03:
+                props = [[rng.choice(['min', 'max']), '5']]          # a string is refused
+            elif which < 0.4 and pts[0] <= hi:
+                props = [['min', pv(pts[0])]]
+            elif which < 0.8 and lo <= pts[1]:
+                props = [['max', pv(pts[1])]]
+            else:
+                props = [['min', pv(pts[0])], ['max', pv(pts[1])]]
+                if rng.random() < 0.5:
+                    props.reverse()
+        elif r < 0.75:
+            props = [['unit', rng.choice(['$', '$/min', 'K', '', 'm/$', '$$'])]]
+        elif r < 0.87:
+            props = [['fmtstr', rng.choice(['%g', '%.2f', '%.4e', '%d' if not bad else 'nopercent'])]]
+        else:
+            props = [[rng.choice(['absolute_resolution', 'relative_resolution']), fj(rng.choice([0.0, 0.5, 0.001, 0.25]))]]
+    elif t == 'int':
+        a, b = sorted(rng.sample([-1000, -3, 0, 1, 2, 7, 100, 65536], 2))
+        if bad:
+            a, b = b, a
+        props = rng.choice([[['min', a], ['max', b]], [['max', b], ['min', a]]])
+        if rng.random() < 0.5:
+            props = [x for x in props if (x[0] == 'min' and x[1] <= n['max']) or (x[0] == 'max' and x[1] >= n['min'])][:1] or props
+    elif t in ('string', 'blob', 'array'):
+        names = {'string': ('minchars', 'maxchars'), 'blob': ('minbytes', 'maxbytes'), 'array': ('minlen', 'maxlen')}[t]
+        a, b = sorted(rng.sample([0, 1, 2, 3, 5, 8, 64], 2))
+        if bad:
+            a, b = b, a
+        r = rng.random()
+        if r < 0.35 and a <= n['max']:
+            props = [[names[0], a]]
+        elif r < 0.7 and b >= n['min']:
+            props = [[names[1], b]]
+        else:
+            props = [[names[0], a], [names[1], b]]
+        if t == 'string' and rng.random() < 0.25:
+            props.append(['isUTF8', not n['utf8']])
+    # the call may be made on an enclosing array: ArrayOf.setProperty hands the keys it does not know to its members
+    if t != 'array':
+        up = 0
+        nodes_ = dict(tree_paths(tree))
+        while len(path) > up and nodes_[path[:len(path) - up - 1]]['t'] == 'array' and rng.random() < 0.6:
+            up += 1
+        path = path[:len(path) - up]
+    return {'op': 'set', 'path': list(path), 'props': props}
+
+
+def gen_history(rng, maxdepth):
+    """a tree, steps drawn against the state of a real object after the steps before, the way the end is looked at, and
+    probes from the catalogues of the tree at the END"""
+    tree0 = fix_scaled(rng, gen.gen_tree(rng, maxdepth, rng.choice(['array', 'array', 'tuple', 'struct', 'double', 'scaled', None, None])))
+    tree0 = dicodec.annotate(rng, permute_optional(rng, tree0), UNITS + ['$', '$/min'], FMTS)
+    dt = dicodec.di_to_dt(tree0)
+    tree = dicodec.dt_to_di(dt)
+    steps = []
+    cur = tree
+    exported = False
+    for i in range(rng.choice([1, 1, 2, 3])):
+        if rng.random() < (0.8 if i == 0 else 0.4):
+            paths = [p for p, _ in tree_paths(cur)]
+            steps.append({'op': 'export', 'path': list(rng.choice(paths)) if rng.random() < 0.3 else []})
+            apply_step(dt, steps[-1])
+            exported = True
+        has_dollar = any('$' in n.get('unit', '') for _, n in tree_paths(cur))
+        if rng.random() < (0.5 if has_dollar else 0.05):
+            paths = [p for p, n in tree_paths(cur) if n['t'] in ('array', 'tuple', 'struct')]
+            s = {'op': 'unit', 'path': list(rng.choice(paths)) if paths and rng.random() < 0.3 else [], 'unit': rng.choice(['K', 'mbar', 'm', 'µm'])}
+        else:
+            s = draw_change(rng, cur)
+            if s is None:
+                break
+        steps.append(s)
+        if apply_step(dt, s)[0] != 'ok':
+            break               # the object is left half changed: the history ends with the refusal
+        cur = dicodec.dt_to_di(dt)
+    probes = gen_probes(rng, dicodec.erase(cur), 4)
+    final = rng.choice(['rebuild', 'copy'])
+    if final == 'copy':
+        probes = probes + [dict(p, mode='call', prev=None) for p in probes if p['mode'] == 'py'][:4]
+    return {'k': 'history', 'tree': tree, 'steps': steps, 'final': final, 'probes': probes, 'exported-before': exported}
+
+
+def eval_history(case):
+    """the steps on ONE real object; then: the state read off the object, its datainfo, the datainfo of a twin built by the
+    constructors from that state, and the rebuild / copy with the probes through both"""
+    from frappy.datatypes import get_datatype
+    dt = dicodec.di_to_dt(case['tree'])
+    impl = {'built': False, 'datainfo': None, 'datainfo2': None, 'tree': None, 'tree2': None, 'probes': [], 'exports': [],
+            'twin': None, 'error': None}
+    for i, s in enumerate(case['steps']):
+        out = apply_step(dt, s)
+        if s['op'] == 'export':
+            impl['exports'].append(datainfo_json(out[1]) if out[0] == 'ok' else 'bad' if out[0] == 'bad' else {'other': out[1]})
+        elif out[0] != 'ok':
+            impl['refused'] = 'bad' if out[0] == 'bad' else str(out[1])
+            impl['refused-at'] = i
+            return impl
+    try:
+        impl['tree'] = dicodec.dt_to_di(dt)
+    except Exception as e:
+        impl['error'] = 'tree:' + type(e).__name__
+        return impl
+    ex = _outcome(dt.export_datatype)
+    if ex[0] != 'ok':
+        impl['error'] = 'export:' + str(ex[1])
+        return impl
+    impl['datainfo'] = datainfo_json(ex[1])
+    try:
+        twin = dicodec.di_to_dt(impl['tree'])
+        if tree_eq(dicodec.dt_to_di(twin), impl['tree']):
+            impl['twin'] = datainfo_json(twin.export_datatype())
+    except Exception:
+        pass
+    d2 = _outcome(dt.copy) if case['final'] == 'copy' else _outcome(lambda: get_datatype(jround(ex[1])))
+    if d2[0] != 'ok':
+        impl['error'] = case['final'] + ':' + (d2[1] or 'bad')
+        return impl
+    dt2 = d2[1]
+    impl['built'] = True
+    try:
+        impl['tree2'] = dicodec.dt_to_di(dt2)
+    except Exception as e:
+        impl['error'] = 'tree2:' + type(e).__name__
+    ex2 = _outcome(dt2.export_datatype)
+    if ex2[0] == 'ok':
+        impl['datainfo2'] = datainfo_json(ex2[1])
+    for p in case['probes']:
+        impl['probes'].append({'o': run_probe(dt, p), 'd': run_probe(dt2, p)})
+    return impl
+
+
+def node_kind_at(tree, path):
+    return dict((tuple(p), n) for p, n in tree_paths(tree)).get(tuple(path), {}).get('t')
+
+
+def show_step(s):
+    where = ''.join(f'[{i}]' for i in s['path'])
+    if s['op'] == 'export':
+        return f'dt{where}.export_datatype()'
+    if s['op'] == 'unit':
+        return f"dt{where}.set_main_unit({s['unit']!r})"
+    return f'dt{where}.set_properties(%s)' % ', '.join(f'{k}={_propval(v)!r}' for k, v in s['props'])
 
 
 # ---------------------------------------------------------------------------------------------
@@ -1179,6 +1413,22 @@ def eval_proxy(case):
         impl['crashed'] = crashed
     if undescribed:
         impl['remote-description-refused'] = undescribed
+    # for the monitor: the complaints about the datatypes, and witnesses of both value sets through the real validate of the other side
+    impl['obs'] = {}
+    for p, bp in zip(case['params'], built):
+        if bp['remote'] is None or p['name'] not in remote:
+            continue
+        own, rdt = params[p['name']].datatype, remote[p['name']]['datatype']
+
+        def wits(values, target):
+            ws = []
+            for wj in values:
+                v = dtcodec.json_to_py(wj)
+                ws.append({'v': wj, 'acc': _outcome(lambda: target.validate(v))[0] == 'ok'})
+            return ws
+        bp['obs'] = {'incompatible': 'incompatible' in out[p['name']], 'notfully': 'not-fully' in out[p['name']],
+                     'to_remote': wits(p.get('w_own', []), rdt), 'to_proxy': wits(p.get('w_remote', []), own)}
+        impl['obs'][p['name']] = bp['obs']
     return {'params': built, 'commands': cbuilt}, impl
 
 
@@ -1465,6 +1715,9 @@ def req_of(case):
         else:
             impl = 'bad' if out[0] == 'bad' else {'other': out[1] if out[0] != 'ok' else 'not-a-command'}
         return {'p': 'C03', 'k': 'getcmd', 'json': dtcodec.py_to_json(case['datainfo'])}, impl
+    if k == 'history':
+        impl = eval_history(case)
+        return {'p': 'C03', 'k': 'history', 'di': case['tree'], 'steps': case['steps'], 'final': case['final'], 'impl': impl}, impl
     if k == 'writable':
         impl = eval_writable(case)
         return {'p': 'C03', 'k': 'writable', 'value': case['value'], 'target': case['target']}, impl
@@ -1535,10 +1788,30 @@ def disagreement(case, impl, ans):
         return diffs or None
     if k == 'getcmd':
         return None if tree_eq(m, impl) else {'getcmd': (m, impl)}
-    if k in ('proxy', 'writable'):
+    if k == 'proxy':
+        seen = {kk: vv for kk, vv in impl.items() if kk != 'obs'}
+        return None if m == seen else {k: (m, seen)}
+    if k == 'writable':
         if m != impl:
             return {k: (m, impl)}
         return None
+    if k == 'history':
+        diffs = {}
+        if 'refused' in impl:
+            if m['tree'] != ('bad' if impl['refused'] == 'bad' else {'other': impl['refused']}):
+                diffs['refused'] = (m['tree'], {'refused': impl['refused'], 'at': impl['refused-at']})
+            return diffs or None
+        if not tree_eq(m['tree'], impl['tree']):
+            diffs['tree'] = (m['tree'], impl['tree'] or impl['error'])
+            return diffs
+        if [canon_model_json(x) for x in m['exports']] != impl['exports']:
+            diffs['exports'] = (m['exports'], impl['exports'])
+        if canon_model_json(m['datainfo']) != (impl['datainfo'] if impl['datainfo'] is not None else {'other': str(impl['error'])[7:]}):
+            diffs['datainfo'] = (m['datainfo'], impl['datainfo'] or impl['error'])
+        it2 = impl['tree2'] if impl['built'] else ('bad' if str(impl['error']).endswith(':bad') else {'other': str(impl['error']).split(':', 1)[-1]})
+        if impl['datainfo'] is not None and not tree_eq(m['tree2'], it2):
+            diffs['tree2'] = (m['tree2'], it2)
+        return diffs or None
     if k == 'cmdcompat':
         if m != impl['verdict']:
             return {'verdict': (m, impl['verdict'])}
@@ -1594,6 +1867,24 @@ def unlimit(a, b):
 
 
 def signature(clause, case, impl=None):
+    if case['k'] == 'history':
+        return f"C03:history:{case['final']}:{clause}"
+    if case['k'] == 'proxy':
+        cl, _, pname = clause.partition('@')
+        if cl.startswith('sound') and impl is not None and pname in impl.get('obs', {}):
+            # attribution only: the pair in the direction judged is one of the recorded findings of compatible() itself
+            p = [p for p in case['params'] if p['name'] == pname][0]
+            o = impl['obs'][pname]
+            try:
+                own = dicodec.erase(dicodec.dt_to_di(dicodec.di_to_dt(p['dt'])))
+                rem = rebuilt_remote(p)
+                x, y, ws = (own, rem, o['to_remote']) if cl == 'sound-write' else (rem, own, o['to_proxy'])
+                sig = signature('sound', {'k': 'compat', 'a': x, 'b': y}, {'witnesses': ws})
+                if sig.count(':') > 2:
+                    return sig
+            except Exception:
+                pass
+        return f'C03:proxy:{cl}'
     if case['k'] == 'cmdrebuild':
         return f'C03:command:{clause}'
     if case['k'] == 'cmdcompat':
@@ -1669,7 +1960,30 @@ def show(tree):
     return repr(dicodec.di_to_dt(tree))
 
 
+def rebuilt_remote(p):
+    """the tree of the remote datatype as the client rebuilds it from the description"""
+    from frappy.datatypes import get_datatype
+    return dicodec.erase(dicodec.dt_to_di(get_datatype(jround(dicodec.di_to_dt(p['remote']['dt']).export_datatype()), p['name'])))
+
+
 def describe(case, impl):
+    if case['k'] == 'history':
+        diff = [(json.dumps(p['o'])[:80], json.dumps(p['d'])[:80]) for p in impl['probes'] if p['o'] != p['d']][:2]
+        return (f"dt = {show(case['tree'])}; " + '; '.join(show_step(s_) for s_ in case['steps']) + f"; now dt is {show(impl['tree']) if impl['tree'] else impl['error']} "
+                f"and exports {json.dumps(impl['datainfo'])[:300]}; a new object in the same state exports {json.dumps(impl['twin'])[:300]}; "
+                f"{case['final']} -> {json.dumps(impl['datainfo2'])[:300] if impl['built'] else impl['error']}; differing probes {diff}")
+    if case['k'] == 'proxy':
+        out = []
+        for p in case['params']:
+            o = impl.get('obs', {}).get(p['name'])
+            if o is None:
+                continue
+            ws = dict((n, w) for n, w in impl['params'])[p['name']]
+            out.append(f"parameter {p['name']}: proxy side {'readonly' if p['readonly'] else 'writable'} {show(p['dt'])}, remote side "
+                       f"{'readonly' if p['remote']['readonly'] else 'writable'} {show(p['remote']['dt'])}; warnings {ws or 'none'}; "
+                       f"values of the proxy's type refused remotely: {[repr(dtcodec.json_to_py(w['v'])) for w in o['to_remote'] if not w['acc']][:3]}; "
+                       f"values of the remote type refused by the proxy: {[repr(dtcodec.json_to_py(w['v'])) for w in o['to_proxy'] if not w['acc']][:3]}")
+        return ' | '.join(out)
     if case['k'] == 'cmdrebuild':
         which = 'copy' if impl['copy'] != impl['rebuild'] and (not impl['copy']['built'] or impl['copy']['shared']) else 'rebuild'
         o = impl[which]
@@ -1715,6 +2029,25 @@ def shrink(ctx, case, clause):
     """descend into the tree / pair while a smaller case fails the same clause"""
     if case['k'] in ('cmdcompat', 'cmdrebuild'):
         return case
+    if case['k'] == 'proxy':
+        # the one parameter the clause is about
+        pname = clause.partition('@')[2]
+        return dict(case, params=[p for p in case['params'] if p['name'] == pname], commands=[])
+    if case['k'] == 'history':
+        # leave out steps while the clause still fires
+        i = 0
+        while i < len(case['steps']) and len(case['steps']) > 1:
+            sc = dict(case, steps=case['steps'][:i] + case['steps'][i + 1:])
+            try:
+                req, _ = req_of(sc)
+                fires = clause in ctx.driver.batch([req])[0].get('judge', [])
+            except Exception:
+                fires = False
+            if fires:
+                case = sc
+            else:
+                i += 1
+        return case
     for _ in range(8):
         smaller = None
         cands = []
@@ -1758,7 +2091,7 @@ def run(ctx):
                 'boundary catalogues through both types (import_value / validate(previous)); copy() with the id()-walk of all mutable '
                 'objects, then mutation of every object of the copy; datainfo with unknown / dropped / null / wrong-kind keys through '
                 'get_datatype; ordered pairs derived per kind (wider, equal, narrower, shifted, cross kind, random) through compatible() '
-                'with witnesses of the first value set through the real validate of the second; derived classes (TextType, LimitsType, StatusType) planted at any depth in all three streams plus a systematic catalogue of every derived class against its plain class; pairs of commands; commands through export_datatype / get_datatype / copy; malformed command descriptions; re-test of the float laws; the proxy consistency check and Writable.__init__ on related datatypes.  Non-trivial = a tree with a container '
+                'with witnesses of the first value set through the real validate of the second; derived classes (TextType, LimitsType, StatusType) planted at any depth in all three streams plus a systematic catalogue of every derived class against its plain class; pairs of commands; commands through export_datatype / get_datatype / copy; malformed command descriptions; re-test of the float laws; the proxy consistency check (with witnesses of both value sets: the verdict in the direction the values flow) and Writable.__init__ on related datatypes; histories on one object (export_datatype, set_main_unit, set_properties on any member or through the enclosing arrays, export again, then rebuild / copy and the datainfo of a twin object).  Non-trivial = a tree with a container '
                 'or a non-default property; a pair whose verdict is pass, or which is refused below the root or by a limit')
     rng = ctx.rng
     big = ctx.tier == 'thorough' or ctx.escalated
@@ -1840,7 +2173,21 @@ def run(ctx):
         except Exception as e:
             res.count('pair.refused:' + type(e).__name__)
             continue
+        for p_ in c['params']:
+            if p_['remote'] is not None:
+                # values of both value sets for the monitor (the direction in which the verdict is used)
+                own = dicodec.erase(dicodec.dt_to_di(dicodec.di_to_dt(p_['dt'])))
+                rem = dicodec.erase(dicodec.dt_to_di(dicodec.di_to_dt(p_['remote']['dt'])))
+                p_['w_own'] = [dtcodec.py_to_json(v) for v in gen_witnesses(rng, own, 5) + all_small_ints(own) + boundary_witnesses(own)[:4]
+                               if dtcodec.encodable(v)]
+                p_['w_remote'] = [dtcodec.py_to_json(v) for v in gen_witnesses(rng, rem, 5) + all_small_ints(rem) + boundary_witnesses(rem)[:4]
+                                  if dtcodec.encodable(v)]
         cases.append((c, 'proxy'))
+    for i in range(ctx.budget(1000, 20000)):
+        try:
+            cases.append((gen_history(rng, 2 if not big else 3), 'history'))
+        except Exception as e:
+            res.count('history.refused:' + type(e).__name__)
     for a, b in variant_pairs():
         # every derived class as `value` against the plain class as `target` and the other way round, nested and not
         cases.append(({'k': 'writable', 'value': b, 'target': a, 'mode': 'derived-class'}, 'writable:derived-class(systematic)'))
@@ -1921,7 +2268,22 @@ def run(ctx):
                     res.nontriv(c)
                 if len(res.samples) < 3 and c['tree']['t'] == 'struct' and len(json.dumps(c)) < 1500 and stream != 'corpus':
                     res.samples.append({'case': {'k': k, 'tree': c['tree']}, 'datainfo': impl['datainfo']})
+            elif k == 'history':
+                res.traces += 1
+                changes = [s_ for s_ in c['steps'] if s_['op'] != 'export']
+                first_export = min([i_ for i_, s_ in enumerate(c['steps']) if s_['op'] == 'export'], default=None)
+                last_change = max([i_ for i_, s_ in enumerate(c['steps']) if s_['op'] != 'export'], default=None)
+                res.count('history.outcome=' + ('refused' if 'refused' in impl else c['final'] + (':built' if impl['built'] else ':not-built')))
+                res.count('history.changed-after-an-export=' + str(first_export is not None and last_change is not None and first_export < last_change).lower())
+                for s_ in changes:
+                    res.count('history.change=' + ('main-unit' if s_['op'] == 'unit' else 'properties' + ('(through an enclosing array)' if
+                              'refused' not in impl and node_kind_at(c['tree'], s_['path']) == 'array' and s_['props'][0][0] not in ('minlen', 'maxlen') else '')))
+                res.count('history.twin=' + ('exported' if impl.get('twin') is not None else 'none'))
+                res.nontriv(c)
             elif k == 'proxy':
+                for p_ in c['params']:
+                    if p_['remote'] is not None:
+                        res.count('proxy.readonly(proxy,remote)=' + str(p_['readonly']).lower() + ',' + str(p_['remote']['readonly']).lower())
                 for _, ws in impl['params']:
                     res.count('proxy.warnings=' + ('+'.join(ws) or 'none'))
                 for _, ws in impl['commands']:
@@ -1958,7 +2320,9 @@ def run(ctx):
                                               'impl': {kk: vv[1] for kk, vv in d.items()}})
             for clause in ans.get('judge', []):
                 small = c
-                if shrunk < 60:
+                if c['k'] == 'proxy':
+                    small = shrink(ctx, c, clause)       # the one parameter: no search needed
+                elif shrunk < 60 or (c['k'] == 'history' and shrunk < 90):
                     shrunk += 1
                     small = shrink(ctx, c, clause)
                 _, simpl = req_of(small)
@@ -1977,7 +2341,7 @@ def replay(ctx, rp):
     req, impl = req_of(case)
     ans = ctx.driver.batch([req])[0]
     print('case     :', json.dumps({k: v for k, v in case.items() if k not in ('probes', 'witnesses', 'argprobes', 'resprobes')})[:1500])
-    if case['k'] in ('rebuild', 'copy', 'compat', 'cmdcompat', 'cmdrebuild'):
+    if case['k'] in ('rebuild', 'copy', 'compat', 'cmdcompat', 'cmdrebuild', 'history', 'proxy'):
         print('what     :', describe(case, impl))
     print('impl     :', json.dumps(impl)[:2000])
     print('model    :', json.dumps(ans.get('model'))[:2000])
